@@ -22,10 +22,12 @@ type verifLim struct {
 	Period int  `json:"period"`
 	Quota  int  `json:"quota"`
 	Align  bool `json:"align"`
+	Pfx    int  `json:"pfx"` // limiters with the same pfx share their Redis keys
 }
 
 type verifOp struct {
-	Op   string `json:"op"` // take | tick | conc | allow | fault
+	Op   string `json:"op"`   // take | tick | conc | allow | fault | replace
+	Inst int    `json:"inst"` // allow / conc: which TokenLimiter instance
 	Lim  int    `json:"lim"`
 	Key  int    `json:"key"`
 	Down bool   `json:"down"` // take: every command answers with an error
@@ -34,8 +36,8 @@ type verifOp struct {
 	N    int    `json:"n"`    // allow / conc
 	Ctx  int    `json:"ctx"`  // allow: 0 background, 1 cancelled, 2 deadline exceeded
 	Skew int64  `json:"skew"` // allow: caller clock minus server clock, ms
-	Eval bool   `json:"eval"` // fault: EVAL answered
-	Ping bool   `json:"ping"` // fault: PING answered
+	Eval bool   `json:"eval"` // fault / replace: EVAL answered
+	Ping bool   `json:"ping"` // fault / replace: PING answered
 	Hard bool   `json:"hard"` // fault with eval=ping=false: close the listener instead of error replies
 }
 
@@ -44,13 +46,16 @@ type verifCase struct {
 	Lims  []verifLim `json:"lims"`
 	Rate  int        `json:"rate"`
 	Burst int        `json:"burst"`
-	T0    int64      `json:"t0"` // start of the clock, unix ms
+	Insts int        `json:"insts"` // token: number of limiter instances on the one key (1 or 2)
+	T0    int64      `json:"t0"`    // start of the clock, unix ms
 	Ops   []verifOp  `json:"ops"`
 }
 
-// verifServer is one miniredis per driver process with a switchable fault mode.
+// verifServer is the miniredis behind one fixed address, with a switchable fault mode; the instance
+// can be replaced by a fresh one (empty data, empty script cache) listening on the same address.
 type verifServer struct {
 	s       *miniredis.Miniredis
+	addr    string
 	closed  bool
 	evalUp  bool
 	pingUp  bool
@@ -106,10 +111,35 @@ func (v *verifServer) set(evalUp, pingUp, hard bool) {
 	v.apply()
 }
 
+// replace closes the current instance (if still listening) and starts a NEW miniredis on the same
+// address: nothing of the old server survives, as after a restart without persistence or a fail-over.
+func (v *verifServer) replace(evalUp, pingUp bool, now time.Time) {
+	if !v.closed {
+		v.s.Close()
+	}
+	s2 := miniredis.NewMiniRedis()
+	var err error
+	for i := 0; i < 200; i++ {
+		if err = s2.StartAddr(v.addr); err == nil {
+			break
+		}
+		time.Sleep(5 * time.Millisecond)
+	}
+	if err != nil {
+		panic(err)
+	}
+	v.s = s2
+	v.closed = false
+	v.evalUp, v.pingUp = evalUp, pingUp
+	s2.SetTime(now)
+	v.apply()
+	v.drain()
+}
+
 // drain makes go-redis throw away the pooled connections that died with the closed listener
 // (a command is retried on at most 4 of them before it fails).
 func (v *verifServer) drain() {
-	store := redis.New(v.s.Addr())
+	store := redis.New(v.addr)
 	for round := 0; round < 4; round++ {
 		var wg sync.WaitGroup
 		for g := 0; g < 24; g++ {
@@ -139,8 +169,6 @@ func verifEntry(s *miniredis.Miniredis, key string) []int64 {
 }
 
 func verifPeriod(v *verifServer, c verifCase) any {
-	s := v.s
-	store := redis.New(s.Addr())
 	prefix := fmt.Sprintf("p%d:", v.caseSeq)
 	lims := make([]*PeriodLimit, len(c.Lims))
 	for i, l := range c.Lims {
@@ -148,17 +176,21 @@ func verifPeriod(v *verifServer, c verifCase) any {
 		if l.Align {
 			opts = append(opts, Align())
 		}
-		lims[i] = NewPeriodLimit(l.Period, l.Quota, store, prefix+strconv.Itoa(i)+":", opts...)
+		// every limiter has its own store wrapper (own breaker), like separate processes
+		lims[i] = NewPeriodLimit(l.Period, l.Quota, redis.New(v.addr), prefix+strconv.Itoa(l.Pfx)+":", opts...)
 	}
 	clock := c.T0
-	s.SetTime(time.UnixMilli(clock))
+	v.s.SetTime(time.UnixMilli(clock))
 	out := make([]map[string]any, 0, len(c.Ops))
 	for _, op := range c.Ops {
 		switch op.Op {
 		case "tick":
 			clock += op.Ms
-			s.SetTime(time.UnixMilli(clock))
-			s.FastForward(time.Duration(op.Ms) * time.Millisecond)
+			v.s.SetTime(time.UnixMilli(clock))
+			v.s.FastForward(time.Duration(op.Ms) * time.Millisecond)
+			out = append(out, map[string]any{})
+		case "replace":
+			v.replace(true, true, time.UnixMilli(clock))
 			out = append(out, map[string]any{})
 		case "take":
 			pl := lims[op.Lim]
@@ -180,7 +212,7 @@ func verifPeriod(v *verifServer, c verifCase) any {
 			} else if err != nil {
 				ec = 1
 			}
-			out = append(out, map[string]any{"code": code, "err": ec, "ent": verifEntry(s, pl.keyPrefix+key),
+			out = append(out, map[string]any{"code": code, "err": ec, "ent": verifEntry(v.s, pl.keyPrefix+key),
 				"exp": []int64{u0, int64(off), int64(e0), u1, int64(e1)}})
 		case "conc":
 			pl := lims[op.Lim]
@@ -206,7 +238,7 @@ func verifPeriod(v *verifServer, c verifCase) any {
 			close(start)
 			wg.Wait()
 			e1 := pl.calcExpireSeconds()
-			out = append(out, map[string]any{"codes": counts[:], "errs": errs, "ent": verifEntry(s, pl.keyPrefix+key),
+			out = append(out, map[string]any{"codes": counts[:], "errs": errs, "ent": verifEntry(v.s, pl.keyPrefix+key),
 				"exp": []int64{0, 0, int64(e0), 0, int64(e1)}})
 		default:
 			out = append(out, map[string]any{"bad_op": op.Op})
@@ -238,29 +270,40 @@ func verifHeal(v *verifServer, tl *TokenLimiter) bool {
 }
 
 func verifToken(v *verifServer, c verifCase) any {
-	s := v.s
-	store := redis.New(s.Addr())
 	name := fmt.Sprintf("t%d", v.caseSeq)
-	var tl *TokenLimiter
-	if p, val := verifdrv.Catch(func() { tl = NewTokenLimiter(c.Rate, c.Burst, store, name) }); p {
-		return map[string]any{"new_panic": val}
+	insts := c.Insts
+	if insts < 1 {
+		insts = 1
+	}
+	// every instance has its own store wrapper (own breaker), like limiters in separate processes
+	tls := make([]*TokenLimiter, insts)
+	for i := range tls {
+		i := i
+		if p, val := verifdrv.Catch(func() { tls[i] = NewTokenLimiter(c.Rate, c.Burst, redis.New(v.addr), name) }); p {
+			return map[string]any{"new_panic": val}
+		}
 	}
 	clock := c.T0
-	s.SetTime(time.UnixMilli(clock))
+	v.s.SetTime(time.UnixMilli(clock))
 	out := make([]map[string]any, 0, len(c.Ops))
 	healed := true
 	snap := func(m map[string]any) map[string]any {
-		if !verifHeal(v, tl) {
-			healed = false
+		alive, mon := make([]uint32, 2), make([]bool, 2)
+		alive[1] = 1 // an absent second instance reads as a healthy idle one
+		for i, tl := range tls {
+			if !verifHeal(v, tl) {
+				healed = false
+			}
+			tl.rescueLock.Lock()
+			mon[i] = tl.monitorStarted
+			tl.rescueLock.Unlock()
+			alive[i] = atomic.LoadUint32(&tl.redisAlive)
 		}
-		tl.rescueLock.Lock()
-		m["mon"] = tl.monitorStarted
-		tl.rescueLock.Unlock()
-		m["alive"] = atomic.LoadUint32(&tl.redisAlive)
+		m["alive"], m["mon"] = alive, mon
 		if v.closed {
 			m["tok"], m["ts"] = []int64{-1, 0, 0}, []int64{-1, 0, 0}
 		} else {
-			m["tok"], m["ts"] = verifEntry(s, tl.tokenKey), verifEntry(s, tl.timestampKey)
+			m["tok"], m["ts"] = verifEntry(v.s, tls[0].tokenKey), verifEntry(v.s, tls[0].timestampKey)
 		}
 		return m
 	}
@@ -276,20 +319,23 @@ func verifToken(v *verifServer, c verifCase) any {
 		return context.Background(), func() {}
 	}
 	for _, op := range c.Ops {
+		if (op.Op == "allow" || op.Op == "conc") && (op.Inst < 0 || op.Inst >= insts) {
+			out = append(out, map[string]any{"bad_op": "inst"})
+			continue
+		}
 		switch op.Op {
 		case "tick":
 			clock += op.Ms
-			if !v.closed {
-				s.SetTime(time.UnixMilli(clock))
-			}
-			s.FastForward(time.Duration(op.Ms) * time.Millisecond)
+			v.s.SetTime(time.UnixMilli(clock))
+			v.s.FastForward(time.Duration(op.Ms) * time.Millisecond)
 			out = append(out, snap(map[string]any{}))
 		case "allow":
 			ctx, cancel := mkctx(op.Ctx)
-			ok := tl.AllowNCtx(ctx, time.UnixMilli(clock+op.Skew), op.N)
+			ok := tls[op.Inst].AllowNCtx(ctx, time.UnixMilli(clock+op.Skew), op.N)
 			cancel()
 			out = append(out, snap(map[string]any{"ok": ok}))
 		case "conc":
+			tl := tls[op.Inst]
 			var wg sync.WaitGroup
 			var granted int64
 			start := make(chan struct{})
@@ -310,16 +356,21 @@ func verifToken(v *verifServer, c verifCase) any {
 		case "fault":
 			v.set(op.Eval, op.Ping, op.Hard)
 			out = append(out, snap(map[string]any{}))
+		case "replace":
+			v.replace(op.Eval, op.Ping, time.UnixMilli(clock))
+			out = append(out, snap(map[string]any{}))
 		default:
 			out = append(out, map[string]any{"bad_op": op.Op})
 		}
 	}
 	// leave no monitor goroutine behind
 	v.set(true, true, false)
-	if !verifHeal(v, tl) {
-		healed = false
+	for _, tl := range tls {
+		if !verifHeal(v, tl) {
+			healed = false
+		}
 	}
-	return map[string]any{"ops": out, "healed": healed, "tokfmt": tl.tokenKey, "tsfmt": tl.timestampKey}
+	return map[string]any{"ops": out, "healed": healed, "tokfmt": tls[0].tokenKey, "tsfmt": tls[0].timestampKey}
 }
 
 // TestVerifDriver replays period/token limiter histories against miniredis with a steered server
@@ -330,8 +381,8 @@ func TestVerifDriver(t *testing.T) {
 	if err != nil {
 		t.Fatal(err)
 	}
-	defer s.Close()
-	v := &verifServer{s: s, evalUp: true, pingUp: true}
+	v := &verifServer{s: s, addr: s.Addr(), evalUp: true, pingUp: true}
+	defer func() { v.s.Close() }()
 	verifdrv.Run(t, func(raw json.RawMessage) any {
 		var c verifCase
 		if err := json.Unmarshal(raw, &c); err != nil {
@@ -339,8 +390,10 @@ func TestVerifDriver(t *testing.T) {
 		}
 		v.caseSeq++
 		v.stuck = false
-		v.set(true, true, false)
-		s.FlushAll()
+		// every case starts on a fresh server and with an empty process-wide script-sha cache, so
+		// that a case (and its replay) does not depend on the cases that ran before it
+		v.replace(true, true, time.UnixMilli(c.T0))
+		redis.GetScriptCache().Store(make(redis.Map))
 		defer func() {
 			v.set(true, true, false)
 		}()
